@@ -768,6 +768,7 @@ func (fr *Frame) instr(ins ssa.Instruction, reach *Term, st *State) *Term {
 		}
 	case *ssa.Store:
 		lv := fr.lval(ins.Addr, st, reach, ins.Pos())
+		fr.guardCheck(lv, st, reach, ins.Pos(), "write")
 		v := fr.reify(fr.val(ins.Val, st))
 		fr.noteLV(lv)
 		vc.store(st, lv, v)
@@ -980,6 +981,7 @@ func (fr *Frame) unop(ins *ssa.UnOp, reach *Term, st *State) {
 	switch ins.Op {
 	case token.MUL:
 		lv := fr.lval(ins.X, st, reach, ins.Pos())
+		fr.guardCheck(lv, st, reach, ins.Pos(), "read")
 		fr.noteLV(lv)
 		v := vc.load(st, lv)
 		fr.assumeAllocated(v, st, reach)
@@ -1062,4 +1064,37 @@ func (fr *Frame) phi(ins *ssa.Phi, st *State) {
 		res = Ite(er, v.T(), res)
 	}
 	fr.setReg(ins, scalar(ins.Type(), res))
+}
+
+// guardCheck emits the lock-discipline obligation for an access to a field declared `guarded` / `atomic`.
+func (fr *Frame) guardCheck(lv *LVal, st *State, reach *Term, pos token.Pos, what string) {
+	vc := fr.vc
+	if lv == nil || lv.Kind != LField || len(vc.e.Guards) == 0 || lv.Path == "" {
+		return
+	}
+	if vc.fc != nil && vc.fc.Exclusive {
+		return
+	}
+	field := lv.Path[1:]
+	if k := strings.IndexAny(field, ".#"); k >= 0 {
+		field = field[:k]
+	}
+	gd := vc.e.Guards[lv.Root+"."+field]
+	if gd == nil {
+		return
+	}
+	props := []string{"C16"}
+	if gd.Atomic {
+		vc.oblige("guard."+field, fr.lbl(what), reach, TFalse, fr.pos(pos), "field "+gd.Type+"."+field+" may only be accessed through sync/atomic ("+what+" here is a plain access)", props, "")
+		return
+	}
+	// the mutex stored in field gd.By of the same object must be in this goroutine's lock set
+	mname := lv.Root + "." + gd.By
+	srt := ArrSort("Int", "Int")
+	vc.noteSort(mname, srt)
+	m := Sel(vc.sv(st, mname, srt), lv.Obj)
+	gl := "ghost.gLocked"
+	vc.noteSort(gl, ArrSort("Int", "Bool"))
+	held := Sel(vc.sv(st, gl, ArrSort("Int", "Bool")), m)
+	vc.oblige("guard."+field, fr.lbl(what), reach, held, fr.pos(pos), what+" of "+gd.Type+"."+field+" requires holding "+gd.Type+"."+gd.By, props, "")
 }
